@@ -110,6 +110,8 @@ class Tr:
         self.depth = 0
         self.self_fields, self.self_setters = SELF_FIELDS, SELF_SETTERS
         self.for_name = 'mfor'
+        self.fuel = None         # termination measure (a Gallina term of type nat) of the function's while loop, when it has one
+        self.loops = []          # enclosing `while` loops: the outer locals each one carries
 
     # ------------------------------------------------------------ pure expressions
     def strip(self, e):
@@ -189,6 +191,8 @@ class Tr:
                 return '(N.max %s %s)' % (a, b), 'N'
             if f == ('path', ['Vec', 'new']):
                 return '[]', 'list'
+            if f == ('path', ['VecDeque', 'new']):
+                return '[]', 'deque'
             if f == ('path', ['QC', 'genesis']):
                 return 'qc_genesis', 'QC'
             if f == ('path', ['Block', 'genesis']):
@@ -381,6 +385,11 @@ class Tr:
             if name == 'broadcast' and aty == 'bcast' and mty == 'ser:cmsg:TC':
                 binds.append((x, 'emit (OTC %s)' % re.sub(r'^\(MsgTC (.*)\)$', r'\1', m), 'unit')); return x, 'unit'
             raise Untranslatable('network.%s of a %s to %s' % (name, mty, aty))
+        if recv == ('field', ('path', ['self']), 'tx_commit') and name == 'send':
+            b, bty = self.value(args[0], env, binds)
+            if bty != 'Block':
+                raise Untranslatable('tx_commit.send of a %s' % bty)
+            x = env.fresh('r'); binds.append((x, 'deliver_block %s' % b, 'unit')); return x, 'unit'
         if recv == ('field', ('path', ['self']), 'inner_channel') and name == 'send':
             b, bty = self.value(args[0], env, binds)
             if bty != 'Block':
@@ -444,7 +453,7 @@ class Tr:
         for st in stmts:
             if st[0] == 'expr':
                 e = st[1]
-                if e[0] == 'return':
+                if e[0] in ('return', 'break'):
                     return True
                 if e[0] == 'macro' and e[1] in ('panic', 'unreachable'):
                     return True
@@ -458,7 +467,7 @@ class Tr:
 
     def may_return(self, node):
         if isinstance(node, tuple):
-            if node and node[0] == 'return':
+            if node and node[0] in ('return', 'break'):
                 return True
             if node and node[0] == 'closure':
                 return False
@@ -469,11 +478,11 @@ class Tr:
 
     def assigned(self, node, env, acc):
         """outer locals assigned inside node"""
-        if isinstance(node, tuple) and node and node[0] == 'mcall' and node[2] in ('insert', 'push'):
+        if isinstance(node, tuple) and node and node[0] == 'mcall' and node[2] in ('insert', 'push', 'push_front', 'push_back'):
             r = node[1]
             while isinstance(r, tuple) and r and r[0] in ('ref', 'deref'):
                 r = r[1]
-            if r[0] == 'path' and len(r[1]) == 1 and r[1][0] in env.v and env.v[r[1][0]][1] in ('setN', 'list') and r[1][0] not in acc:
+            if r[0] == 'path' and len(r[1]) == 1 and r[1][0] in env.v and env.v[r[1][0]][1] in ('setN', 'list', 'deque') and r[1][0] not in acc:
                 acc.append(r[1][0])
         if isinstance(node, tuple):
             if node and node[0] == 'assign' and node[2][0] == 'path' and len(node[2][1]) == 1 and node[2][1][0] in env.v:
@@ -642,7 +651,15 @@ class Tr:
             return self.branch(e, env, kv, is_stmt, is_tail)
         if k == 'for':
             return self.for_loop(e, env, kv)
-        if k in ('while', 'whilelet', 'loop'):
+        if k == 'break':
+            if not self.loops:
+                raise Untranslatable('`break` outside a translated while loop')
+            return 'ret ((%s), false)' % ', '.join(env.v[m][0] for m in self.loops[-1])
+        if k == 'while':
+            return self.while_loop(e, env, kv)
+        if k == 'whilelet':
+            return self.drain_loop(e, env, kv)
+        if k == 'loop':
             raise Untranslatable('loop (`%s`)' % k)
         # plain expression
         if is_tail:
@@ -773,7 +790,77 @@ class Tr:
                     return recv[1][0], '(%s ++ [%s])' % (t, self.pure(e[3][0], env)[0]), ty
                 if ty == 'hasher' and e[2] == 'update' and len(e[3]) == 1:
                     return recv[1][0], t + (self.pure(e[3][0], env),), ty
+                if ty == 'deque' and e[2] == 'push_front' and len(e[3]) == 1:
+                    return recv[1][0], '(%s :: %s)' % (self.pure(e[3][0], env)[0], t), ty
+                if ty == 'deque' and e[2] == 'push_back' and len(e[3]) == 1:
+                    return recv[1][0], '(%s ++ [%s])' % (t, self.pure(e[3][0], env)[0]), ty
         return None
+
+    def while_loop(self, e, env, kv):
+        """`while COND { BODY }` (BODY may `break`) -> acc <- mwhile FUEL (fun acc => ret COND) (fun acc => BODY ;; ret (acc', true)) acc0"""
+        cond, body = e[1], e[2]
+        if self.fuel is None:
+            raise Untranslatable('while loop in a function with no termination measure')
+        if any(self.may_return_only(x) for x in [body]):
+            raise Untranslatable('`return` inside a while loop')
+        mods = self.assigned(body, env, [])
+        if not mods:
+            raise Untranslatable('while loop that carries no local')
+        envb = env.copy(); accn = []
+        for m in mods:
+            x = self.coqname(m, envb) + '_i'
+            envb.v[m] = (x, env.v[m][1]); accn.append(x)
+        accpat = "'(%s)" % ', '.join(accn) if len(accn) > 1 else accn[0]
+        cb = []
+        c = self.cond(cond, envb, cb)
+        ccode = self.wrap(cb, 'ret %s' % c)
+        self.loops.append(mods)
+        try:
+            bcode = self.block(body, envb, lambda t, ty, env_i: 'ret ((%s), true)' % ', '.join(env_i.v[m][0] for m in mods))
+        finally:
+            self.loops.pop()
+        init = '(%s)' % ', '.join(env.v[m][0] for m in mods)
+        loop = 'mwhile %s (fun %s => %s) (fun %s => %s) %s' % (self.fuel, accpat, ccode, accpat, bcode, init)
+        env2 = env.copy(); outn = []
+        for m in mods:
+            x = self.coqname(m, env2); env2.v[m] = (x, env.v[m][1]); outn.append(x)
+        rest = kv('tt', 'unit', env2)
+        if len(outn) > 1:
+            acc = env.fresh('acc')
+            return "%s <- %s ;; let '(%s) := %s in %s" % (acc, loop, ', '.join(outn), acc, rest)
+        return '%s <- %s ;; %s' % (outn[0], loop, rest)
+
+    def may_return_only(self, node):
+        if isinstance(node, tuple):
+            if node and node[0] == 'return':
+                return True
+            if node and node[0] == 'closure':
+                return False
+            return any(self.may_return_only(x) for x in node)
+        if isinstance(node, list):
+            return any(self.may_return_only(x) for x in node)
+        return False
+
+    def drain_loop(self, e, env, kv):
+        """`while let Some(PAT) = DQ.pop_front() { BODY }` over a local deque that BODY does not touch: the elements in order"""
+        pat, scrut, body = e[1], self.strip(e[2]), e[3]
+        if not (pat[0] == 'pts' and pat[1] == ['Some'] and len(pat[2]) == 1 and pat[2][0][0] == 'pid'):
+            raise Untranslatable('while-let pattern')
+        if not (scrut[0] == 'mcall' and scrut[2] in ('pop_front', 'pop_back') and not scrut[3]):
+            raise Untranslatable('while-let over %s' % (scrut[:1],))
+        r = self.strip(scrut[1])
+        if not (r[0] == 'path' and len(r[1]) == 1 and r[1][0] in env.v and env.v[r[1][0]][1] == 'deque'):
+            raise Untranslatable('while-let: not a local deque')
+        dq = r[1][0]
+        if self.may_return(body) or self.assigned(body, env, []):
+            raise Untranslatable('while-let body returns, breaks or updates an outer local')
+        lt = env.v[dq][0] if scrut[2] == 'pop_front' else '(rev %s)' % env.v[dq][0]
+        envb = env.copy()
+        x = self.coqname(pat[2][0][1], envb); envb.v[pat[2][0][1]] = (x, 'Block')
+        del envb.v[dq]                     # the deque itself is not visible to the body
+        bcode = self.block(body, envb, lambda t, ty, env_i: 'ret tt')
+        env2 = env.copy(); env2.v[dq] = ('[]', 'deque')
+        return '%s %s (fun %s _ => %s) tt ;;; %s' % (self.for_name, lt, x, bcode, kv('tt', 'unit', env2))
 
     def for_loop(self, e, env, kv):
         """`for PAT in LIST { BODY }` -> acc <- mfor LIST (fun PAT acc => BODY ;; ret acc') acc0, acc = the outer locals BODY updates"""
@@ -828,7 +915,7 @@ class Tr:
         return code
 
 
-def translate_fn(src, name, impl=None, extra_env=None, effects=None, gen_name=None, params_override=None):
+def translate_fn(src, name, impl=None, extra_env=None, effects=None, gen_name=None, params_override=None, fuel=None):
     fn = R.find_fn(src, name, impl)
     if fn is None:
         raise Untranslatable('fn %s not found' % name)
@@ -844,6 +931,7 @@ def translate_fn(src, name, impl=None, extra_env=None, effects=None, gen_name=No
         env.v[pn] = (x, ty)
         coq_params.append('(%s : %s)' % (x, COQTYPE[ty]))
     tr = Tr(src, name, kind, effects)
+    tr.fuel = fuel
 
     def kv(t, ty, env2):
         if kind == 'result':
@@ -892,7 +980,10 @@ def main():
         ('gen_get_ancestors', sync, 'synchronizer.rs', 'get_ancestors', 'Synchronizer'),
         ('gen_get_parent_block', sync, 'synchronizer.rs', 'get_parent_block', 'Synchronizer'),
         ('gen_mempool_verify', memp, 'mempool.rs', 'verify', 'MempoolDriver'),
+        ('gen_commit', core, 'core.rs', 'commit', None),
     ]
+    # termination measure of the ancestor walk in commit(): the depth of the committed block's digest term (+2)
+    fuels = {'gen_commit': '(commit_fuel p_block)'}
     # the same store handle means different things in different tasks: blocks under their digest for the synchronizer, batches for the mempool driver
     extra_eff = {'gen_get_parent_block': {('self.store', 'read'): ('store_read_block {0}', 'opt:ser:Block', True)},
                  'gen_mempool_verify': {('self.store', 'read'): ('batch_read {0}', 'opt:bytes', True)}}
@@ -904,7 +995,9 @@ def main():
             del e2[('self', 'get_parent_block')]      # its own body, not the model function
         # a function's own body must not be replaced by the model function it is tied to (recursion aside)
         try:
-            params, code, line, ret = translate_fn(src, fn, impl, effects=e2)
+            if gname == 'gen_commit':
+                del e2[('self', 'commit')]
+            params, code, line, ret = translate_fn(src, fn, impl, effects=e2, fuel=fuels.get(gname))
             rt = {'gen_make_vote': 'option Vote', 'gen_get_ancestors': 'option (Block * Block)', 'gen_get_parent_block': 'option Block', 'gen_mempool_verify': 'bool'}.get(gname, 'unit')
             defs.append('(* %s: fn %s (line %d) -> %s *)\nDefinition %s (c : Committee) (me : N) (dq : DqCfg) (hint : list N) %s : M (%s) :=\n    %s.' % (fname, fn, line, ' '.join(ret.split()), gname, ' '.join(params), rt, pretty(code)))
             status.append({'name': gname, 'file': fname, 'fn': fn, 'line': line, 'ok': True})
